@@ -117,9 +117,31 @@ func planC18(tier string, seed int64) (*core.Plan, error) {
 		}
 		stores, srcs := storesFor(fname)
 		p.Stages = append(p.Stages, core.Stage{Name: fname, EvalMod: "EvalEdit", EvalEnv: map[string]string{"SCHEMA": f.DSFile},
-			Cases: func(emit func(core.Case)) { deleteHistories(f, r, h/3, stores, srcs, emit) }})
+			Cases: func(emit func(core.Case)) {
+				deleteHistories(f, r, h/3, stores, srcs, emit)
+				freshListCases(f, r, 4*len(stores), stores, emit)
+			}})
 	}
 	return p, nil
+}
+
+// freshListCases: a payload that names one list entry twice, written where the target holds no
+// such list yet (the list node itself is created by the edit) - upsert must leave one entry,
+// insert must refuse
+func freshListCases(f *fx.Fixture, r *rand.Rand, n int, stores []string, emit func(core.Case)) {
+	gp := gen.Default
+	gp.PList, gp.PCont, gp.MaxEntries = 1.0, 0.8, 3
+	g := &gen.G{DS: f.DS, R: r, P: gp}
+	for i := 0; i < n; i++ {
+		s := g.Subtree(abs.Path{})
+		if len(s.Ord) == 0 {
+			continue
+		}
+		for _, k := range []string{"upsert", "insert"} {
+			emit(core.Case{"kind": "edit", "fixture": f.Name, "store": stores[i%len(stores)], "pre": abs.NewTree(),
+				"ops": []editOp{{K: k, At: abs.Path{}, S: s, Src: "json", Dup: true, Into: i%5 == 4}}, "verifyfind": true})
+		}
+	}
 }
 
 // deleteHistories tracks the expected tree only to choose meaningful entry points (the
